@@ -11,6 +11,20 @@ pub enum ElemClass {
     Plain,
     Tracked,
     Zst,
+    /// zero-sized key and value types *with destructors* (counted, and able to panic)
+    ZstDrop,
+}
+
+impl ElemClass {
+    #[inline]
+    pub const fn is_zst(self) -> bool {
+        matches!(self, ElemClass::Zst | ElemClass::ZstDrop)
+    }
+    /// do stored objects of this class run a destructor the simulator owns?
+    #[inline]
+    pub const fn has_drop(self) -> bool {
+        matches!(self, ElemClass::Tracked | ElemClass::ZstDrop)
+    }
 }
 
 pub trait KeyT: Hash + Eq + Clone + Debug + Sized + 'static {
@@ -119,6 +133,94 @@ impl ValT for () {
         0
     }
     fn check(&self, _what: &str) {}
+}
+
+// ---------------------------------------------------------------- ZstDrop
+
+/// Zero-sized key with a destructor. Objects cannot be told apart, so the ledger is a count:
+/// `ctx.zst_live` = constructions (make, clone, default) minus destructor runs.
+#[derive(Debug)]
+pub struct ZKey(());
+#[derive(Debug)]
+pub struct ZVal(());
+
+impl KeyT for ZKey {
+    const CLASS: ElemClass = ElemClass::ZstDrop;
+    fn make(_kv: u32) -> Self {
+        ctx::zst_born();
+        ZKey(())
+    }
+    fn kv(&self) -> u32 {
+        0
+    }
+    fn oid(&self) -> u64 {
+        0
+    }
+    fn check(&self, _what: &str) {}
+}
+impl ValT for ZVal {
+    fn make(_p: u32) -> Self {
+        ctx::zst_born();
+        ZVal(())
+    }
+    fn norm(_p: u32) -> u32 {
+        0
+    }
+    fn payload(&self) -> u32 {
+        0
+    }
+    fn set_payload(&mut self, _p: u32) {}
+    fn oid(&self) -> u64 {
+        0
+    }
+    fn check(&self, _what: &str) {}
+}
+impl Default for ZVal {
+    fn default() -> Self {
+        ctx::zst_born();
+        ZVal(())
+    }
+}
+impl Hash for ZKey {
+    fn hash<H: Hasher>(&self, _state: &mut H) {}
+}
+impl PartialEq for ZKey {
+    fn eq(&self, _other: &Self) -> bool {
+        ctx::callback(Site::Eq);
+        true
+    }
+}
+impl Eq for ZKey {}
+impl PartialEq for ZVal {
+    fn eq(&self, _other: &Self) -> bool {
+        true
+    }
+}
+impl Clone for ZKey {
+    fn clone(&self) -> Self {
+        ctx::callback(Site::Clone);
+        ctx::zst_born();
+        ZKey(())
+    }
+}
+impl Clone for ZVal {
+    fn clone(&self) -> Self {
+        ctx::callback(Site::Clone);
+        ctx::zst_born();
+        ZVal(())
+    }
+}
+impl Drop for ZKey {
+    fn drop(&mut self) {
+        ctx::zst_died();
+        ctx::drop_callback();
+    }
+}
+impl Drop for ZVal {
+    fn drop(&mut self) {
+        ctx::zst_died();
+        ctx::drop_callback();
+    }
 }
 
 // ---------------------------------------------------------------- Tracked
@@ -278,6 +380,9 @@ impl Drop for TKey {
         }
         ctx::note_drop(self.id);
         self.canary = 0xDEAD_DEAD_DEAD_DEAD;
+        if self.id != 0 {
+            ctx::drop_callback();
+        }
     }
 }
 impl Drop for TVal {
